@@ -54,6 +54,10 @@ func (w wrapper) validateKID(kid string) error {
 	if !w.kidPattern.MatchString(kid) {
 		return fmt.Errorf("invalid key ID: %s", kid)
 	}
+	// "." and ".." match the pattern, but address the parent of the key namespace in path-based backends
+	if kid == "." || kid == ".." {
+		return fmt.Errorf("invalid key ID: %s", kid)
+	}
 	return nil
 }
 
